@@ -167,6 +167,22 @@ func c12Strings(c *enumx.Ctx) {
 			}
 		}
 	}
+	// LONG values: length limits inside the decoders (PATH_MAX, record size) are far above the
+	// short-string enumeration; with a space the kernel hex-encodes, without it quotes
+	for _, n := range []int{100, 255, 256, 1000, 1023, 1024, 1025, 2047, 2048, 2049, 3000, 3750, 4095, 4096, 4097, 7000} {
+		for _, unsafeCh := range []string{" ", "", "\xff"} {
+			v := "/" + strings.Repeat("d", n-2) + unsafeCh
+			if unsafeCh != "" {
+				v = "/" + strings.Repeat("d", n-3) + unsafeCh + "e"
+			}
+			for _, r := range recordsFor(v) {
+				if !c.Mine() {
+					continue
+				}
+				checkRec(c, r)
+			}
+		}
+	}
 	// proctitle with NUL separators
 	for _, v := range []string{"a\x00b", "sshd: root\x00", "/bin/sh\x00-c\x00echo hi", "\x00", "a\x00\x00b", "x\x00\xff"} {
 		if !c.Mine() {
